@@ -187,12 +187,12 @@ PROPS = {
     ),
     "C17": dict(
         level="model_checking",
-        level_text="bounded model checking by symbolic execution of setField / conform / sizeOfKind / the capture and error path of strct.Parse through the real Build and Parse: (A) for every integer kind (int8..int64, int, uint8..uint64, uint, a named type, a pointer) the captured text is opaque and strconv.ParseInt/ParseUint are uninterpreted functions with the documented contract; the solver proves, for every 64-bit result and both outcomes, that the stored value equals the result of the conversion the property prescribes (base 0, the field's bit size) or that the parse fails with an error located at the captured token and nothing stored; (B) joined tokens, slices and floats are checked on a catalogue of 35 boundary texts against strconv itself",
+        level_text="bounded model checking by symbolic execution of setField / conform / sizeOfKind / the capture and error path of strct.Parse through the real Build and Parse: (A) for every integer kind (int8..int64, int, uint8..uint64, uint, a named type, a pointer) the captured text is opaque and strconv.ParseInt/ParseUint are uninterpreted functions with the documented contract; the solver proves, for every 64-bit result and both outcomes, that the stored value equals the result of the conversion the property prescribes (base 0, the field's bit size) or that the parse fails with an error located at the captured token and nothing stored; (B) joined tokens, slices and floats are checked on a catalogue of 40 boundary texts against strconv itself",
         level_note="trusted: uninterpreted-function model of strconv.ParseInt/ParseUint (functional consistency + 'on success the value fits bitSize'); reflect model (SetInt/SetUint truncate like the real ones; sampled paths replayed natively with real reflect and real strconv); z3",
         runs=[dict(pkg=".", files=["root/zz_verif_ref.go", "root/zz_verif_parse.go", "root/zz_verif_grammars.go", "root/zz_verif_num.go"], harness="^VH_C17_",
                    reach={"VH_C17_Int8": ["converts", "rejects"], "VH_C17_Uint16": ["converts", "rejects"], "VH_C17_Alt": ["converts", "rejects", "other-alternative"],
                           "VH_C17_Join": ["converts", "rejects"], "VH_C17_Slice": ["converts", "rejects"], "VH_C17_Float32": ["converts", "rejects"]})],
-        bounds=dict(quick="family A: 12 field shapes x all (value, ok) results of the uninterpreted conversion (64-bit symbolic); family B: 35 boundary texts (width limits of every size, hex/octal/binary prefixes, underscores, empty, exponent, Inf/NaN, float32 overflow) x {joined with '-', 1-2 slice elements, float32, float64}",
+        bounds=dict(quick="family A: 12 field shapes x all (value, ok) results of the uninterpreted conversion (64-bit symbolic); family B: 40 boundary texts (width limits of every size, hex/octal/binary prefixes, underscores, empty, exponent, Inf/NaN, float32 overflow) x {joined with '-', 1-2 slice elements, float32, float64}",
                     thorough="same (the finite kind set is complete)"),
         outside="numeric texts outside the catalogue for floats and slices (family B is an enumeration, not solver-decided); complex kinds",
         assumptions=["strconv.ParseInt/ParseUint on opaque text = uninterpreted function of (text, base, bitSize) with contract ok => value fits bitSize"],
